@@ -103,6 +103,20 @@ def run_case(c, femio, meshio, work):
         else:
             fd.nodal_data.set_attribute_data(ow['name'], data)
 
+    def table_ops(ops):
+        # in-place edits through the public API of FEMAttribute
+        for op in ops or []:
+            attr = fd.nodes if op['target'] == 'NODE' else fd.nodal_data[op['target']]
+            if op['op'] == 'put':
+                tail = list(np.asarray(attr.data).shape[1:])
+                vals = np.array([[fl(x) for x in row] for row in op['rows']], dtype=float).reshape(
+                    [len(op['ids'])] + tail)
+                attr.update(np.array(op['ids'], dtype=np.int64), vals, allow_overwrite=True)
+            else:
+                sg = {int(a): int(b) for a, b in op['sigma']}
+                attr.ids = np.array([sg[int(i)] for i in attr.ids], dtype=np.int64)
+    table_ops(c.get('pre_ops'))
+
     def export(tag):
         # what femio holds just before the export
         held = {'node_ids': [int(i) for i in fd.nodes.ids],
@@ -131,6 +145,7 @@ def run_case(c, femio, meshio, work):
     # a second export from the SAME object after modifications through the public API
     th = c.get('then')
     if th:
+        table_ops(th.get('ops'))
         if 'points' in th:
             new = np.array([[fl(x) for x in p] for p in th['points']], dtype=float)
             if th['points_how'] == 'setter':
